@@ -583,6 +583,71 @@ REVIEWED_COUNTS = {
 
 
 
+def check_group_order(ctx, prog, tag, rule="C07.V14.grouping-order-is-the-sorting-order"):
+    """V14 (after seed C07-9): a filter that sorts its items and then splits the sorted run wherever two neighbours
+    differ (groupby) partitions by key only if "differ" is decided by the order it sorted with - same comparator, same
+    flags.  Sorting by plain `cmp` and grouping by the case-folding comparator puts the two spellings of one key into
+    different groups whenever another key sorts between them."""
+    n = 0
+    ORD = "core::cmp::Ordering"
+
+    def ord_calls(g):
+        return [c for c in g.calls() if c.dest is not None and "p" not in c.dest and g.locals[c.dest["l"]].get("adt") == ORD
+                and not c.name.startswith("core::cmp::Ordering::")]
+
+    def flag_keys(g, c, host=None):
+        """origin keys of the non-value arguments (position >= 2), closure captures resolved in the host"""
+        out = []
+        caps = flow.closure_captures(prog, g) if g.kind == "closure" else None
+        for a in c.args[2:]:
+            if "c" in a:
+                out.append(("const", str(a["c"].get("int"))))
+                continue
+            ks = set()
+            for o in flow.origins(g, a):
+                if o.kind == "const":
+                    ks.add(("const", str(o.const.get("int"))))
+                elif g.kind == "closure" and o.kind == "arg" and o.arg == 1 and o.proj and o.proj[0].isdigit() and caps is not None \
+                        and int(o.proj[0]) < len(caps):
+                    for co in caps[int(o.proj[0])]:
+                        ks.add(("host",) + tuple(str(x) for x in co.key()))
+                else:
+                    ks.add(("host",) + tuple(str(x) for x in o.key()))
+            out.append(tuple(sorted(ks)))
+        return tuple(out)
+    for f in sorted(prog.fns.values(), key=lambda g: g.path):
+        if f.kind == "closure" or f.crate not in ("minijinja", "minijinja_contrib") or not (
+                f.loc.f.endswith("filters.rs") or f.loc.f.endswith("filters/mod.rs")):
+            continue
+        sorts = [c for c in f.calls() if any(c.name.endswith(x) for x in SORTERS) and ("sort" in c.name.split("::")[-1])]
+        if not sorts:
+            continue
+        loops = cfg.natural_loops(f)
+        in_loop = set().union(*[b for _, b in loops]) if loops else set()
+        groupers = [c for c in ord_calls(f) if c.bb in in_loop and any(cfg.can_reach(f, s_.bb, c.bb) for s_ in sorts)]
+        if not groupers:
+            continue
+        sort_sigs = set()
+        for s_ in sorts:
+            for a in s_.args:
+                for o in flow.origins(f, a):
+                    if o.kind == "agg" and o.rv.get("closure"):
+                        cl = prog.fns.get(norm_path(o.rv["closure"]))
+                        if cl is not None:
+                            for c in ord_calls(cl):
+                                sort_sigs.add((c.name, flag_keys(cl, c, f)))
+        for c in groupers:
+            n += 1
+            sig = (c.name, flag_keys(f, c))
+            ctx.ob(rule, "%s%s|%s" % (tag, f.path, c.name.split("::")[-1]), sig in sort_sigs,
+                   "%s splits the sorted items where %s says two neighbours differ, but it sorted them with %s: items the "
+                   "grouping comparison calls equal need not be adjacent, so one key can end up in several groups"
+                   % (f.path.split("::")[-1], c.name.split("::")[-1], sorted(x[0].split("::")[-1] for x in sort_sigs) or "no comparator call"),
+                   f.where(c.bb))
+    return n
+
+
+
 SETS = ("BTreeSet", "HashSet", "IndexSet", "BTreeMap", "HashMap", "IndexMap")
 
 
@@ -968,6 +1033,9 @@ def run(ctx):
         check_float_order_vs_equality(ctx, prog, tag)
         check_inline_padding(ctx, prog, tag)
         n12 = check_dedup(ctx, prog, tag)
+        n14 = check_group_order(ctx, prog, tag)
+        if prog.has_fn("minijinja::filters::builtins::groupby"):
+            ctx.floor("C07.V14 grouping comparisons after a sort" + tag, n14, 1)
         n13 = check_string_reprs(ctx, prog, tag, "C07.V13.string-representations-are-handled-alike",
                                  lambda f: not f.loc.f.endswith(("value/deserialize.rs", "value/serialize.rs")))
         ctx.floor("C07.V13 switches on the value representation" + tag, n13, 40)
